@@ -8,6 +8,7 @@ CONSTANTS
   DHPoints <- NoPoints
 INVARIANT Tracks
 INVARIANT WarnClassesSound
+INVARIANT KeysDenoteCharges
 INVARIANT TypeOK
 INVARIANT Emit
 CHECK_DEADLOCK FALSE
